@@ -49,8 +49,10 @@ def gen_journal(rng):
     xs = []
     for i in range(n):
         r = rng.random()
-        if r < 0.42:
+        if r < 0.40:
             x = X.gen_balanced(rng)
+        elif r < 0.42:
+            x = X.gen_grant(rng)
         elif r < 0.57:
             x = X.unbalance(rng, X.gen_balanced(rng, with_costs=False), whole=True)
         elif r < 0.62:
@@ -75,7 +77,7 @@ def gen_journal(rng):
             x = X.add_null(rng, X.gen_balanced(rng, with_costs=False))
         x.date = '2020/%02d/%02d' % (rng.randrange(1, 13), rng.randrange(1, 29))
         xs.append(x)
-    return xs
+    return X.written_variants(xs)
 
 
 def run_one(ctx, res, j, xs, bucket=None):
@@ -120,6 +122,24 @@ def without_virtual(ctx, res, j, xs, rejected, errs, text):
     exactly the same transactions (judged on ledger's behaviour alone; which transactions are rejected and why)"""
     if not any(p.kind == 'V' for x in xs for p in x.posts):
         return
+    # a (virtual) amount written with more decimals than anything before it teaches its commodity a finer display
+    # precision, and the display-zero test of every LATER transaction is made at that precision: such a journal is
+    # outside this comparison (the posting does not decide its own transaction, but it is not without any effect)
+    seen = {}
+
+    def written(q):
+        for a in [q.amt, q.cost[1] if q.cost else None, q.lot]:
+            if a is not None and a.sym is not None:
+                yield a.sym, a.dec
+    for x in xs:
+        for q in x.posts:
+            if q.kind != 'V':
+                for c, d in written(q):
+                    seen[c] = max(seen.get(c, 0), d)
+        for q in x.posts:
+            if q.kind == 'V' and any(d > seen.get(c, -1) for c, d in written(q)):
+                res.count('without-virtual:skipped-teaches-precision')
+                return
     ys = []
     for x in xs:
         ps = [p for p in x.posts if p.kind != 'V']
